@@ -276,258 +276,5 @@ func trFairMQ() string {
 	for _, n := range []string{"EXECUTOR", "DEVICE_INTENTIONAL", "DEVICE_ERROR"} {
 		fmt.Fprintf(&b, "Definition trigger_%s : N := %d.\n", n, trig[n])
 	}
-	hsites, hfwd, hwhy := transitionHandlerTie()
-	if hsites == 0 {
-		die("package executor: no `response := <task>.Transition(cmd)` found in the message handler")
-	}
-	b.WriteString("(* package executor (message handler): every response of <task>.Transition(cmd) is marshalled and\n" +
-		"   sent to the core as it is (read by data flow: never assigned, no field assigned, address not taken,\n" +
-		"   handed only to json.Marshal / the logger / followed unexported functions of the package) *)\n")
-	fmt.Fprintf(&b, "Definition transition_handler_sites : N := %d.\n", hsites)
-	fmt.Fprintf(&b, "Definition transition_handler_forwards : bool := %v.\n", hfwd)
-	for _, w := range hwhy {
-		fmt.Fprintf(&b, "(* not forwarded: %s *)\n", strings.ReplaceAll(w, "*)", "* )"))
-	}
 	return b.String()
-}
-
-// ---------- the last layer: executor/handlers.go sends ControllableTask.Transition's response ----------
-//
-// h16 drives ControllableTask.UnmarshalTransition + Transition and reads the marshalled response.
-// What remains between that and the core is the MesosCommand_Transition arm of the message handler
-// (package executor, unexported, needs a live Mesos connection): it must marshal the response of
-// <task>.Transition(cmd) as it is and send it.  Read syntactically, by data flow and not by names:
-// every `R := <x>.Transition(..)` of the package; in the enclosing function R may only be read
-// (method calls on R, the package logger), never assigned, never have a field assigned, never have
-// its address taken or be handed to another function - except json.Marshal(R), whose result J must
-// reach <calls>.Message(J) unchanged, or an unexported function of the same package, which is
-// followed (3 levels) under the same rules.
-
-type fwdCtx struct {
-	funcs map[string]*ast.FuncDecl
-	why   []string
-}
-
-func fwdRoot(e ast.Expr) string {
-	for {
-		switch v := e.(type) {
-		case *ast.Ident:
-			return v.Name
-		case *ast.SelectorExpr:
-			e = v.X
-		case *ast.IndexExpr:
-			e = v.X
-		case *ast.StarExpr:
-			e = v.X
-		case *ast.ParenExpr:
-			e = v.X
-		case *ast.CallExpr:
-			e = v.Fun
-		default:
-			return ""
-		}
-	}
-}
-
-func fwdIsIdent(e ast.Expr, name string) bool {
-	id, ok := e.(*ast.Ident)
-	return ok && id.Name == name
-}
-
-// sentUnchanged: J (the marshalled bytes) is assigned once and reaches a call <..>.Message(J),
-// directly or through an unexported function of the package.
-func (c *fwdCtx) sentUnchanged(body ast.Node, j string, def ast.Node, depth int) bool {
-	sent, bad := false, false
-	ast.Inspect(body, func(n ast.Node) bool {
-		switch v := n.(type) {
-		case *ast.AssignStmt:
-			if ast.Node(v) == def {
-				return true
-			}
-			for _, l := range v.Lhs {
-				if fwdRoot(l) == j {
-					bad = true
-					c.why = append(c.why, "the marshalled response "+j+" is assigned again")
-				}
-			}
-		case *ast.CallExpr:
-			for i, a := range v.Args {
-				if !fwdIsIdent(a, j) {
-					continue
-				}
-				if sel, ok := v.Fun.(*ast.SelectorExpr); ok && sel.Sel.Name == "Message" {
-					sent = true
-				} else if id, ok := v.Fun.(*ast.Ident); ok && c.funcs[id.Name] != nil && depth < 3 {
-					if p := fwdParam(c.funcs[id.Name], i); p != "" && c.sentUnchanged(c.funcs[id.Name].Body, p, nil, depth+1) {
-						sent = true
-					}
-				}
-			}
-		}
-		return true
-	})
-	return sent && !bad
-}
-
-func fwdParam(fd *ast.FuncDecl, i int) string {
-	k := 0
-	for _, f := range fd.Type.Params.List {
-		if len(f.Names) == 0 {
-			k++
-			continue
-		}
-		for _, n := range f.Names {
-			if k == i {
-				return n.Name
-			}
-			k++
-		}
-	}
-	return ""
-}
-
-// forwards: within body, the response R is only read and is marshalled and sent as it is.
-func (c *fwdCtx) forwards(body ast.Node, r string, def ast.Node, depth int) bool {
-	ok, sent := true, false
-	no := func(format string, a ...any) {
-		ok = false
-		c.why = append(c.why, fmt.Sprintf(format, a...))
-	}
-	ast.Inspect(body, func(n ast.Node) bool {
-		switch v := n.(type) {
-		case *ast.AssignStmt:
-			if ast.Node(v) != def {
-				for _, l := range v.Lhs {
-					if fwdRoot(l) == r {
-						no("the response %s (or a field of it) is assigned after Transition returned it", r)
-					}
-				}
-			}
-			// J, err := json.Marshal(R)
-			if len(v.Rhs) == 1 {
-				if call, isCall := v.Rhs[0].(*ast.CallExpr); isCall && fwdIsMarshal(call) && len(call.Args) == 1 && fwdIsIdent(call.Args[0], r) {
-					if j, isId := v.Lhs[0].(*ast.Ident); isId && j.Name != "_" {
-						if c.sentUnchanged(body, j.Name, v, depth) {
-							sent = true
-						}
-					}
-				}
-			}
-		case *ast.IncDecStmt:
-			if fwdRoot(v.X) == r {
-				no("the response %s is modified", r)
-			}
-		case *ast.UnaryExpr:
-			if v.Op == token.AND && fwdRoot(v.X) == r {
-				no("the address of the response %s (or of a field) is taken", r)
-			}
-		case *ast.CallExpr:
-			for i, a := range v.Args {
-				if !fwdIsIdent(a, r) {
-					continue
-				}
-				switch {
-				case fwdIsMarshal(v):
-				case fwdRoot(v.Fun) == "log":
-				default:
-					if id, isId := v.Fun.(*ast.Ident); isId && c.funcs[id.Name] != nil && depth < 3 {
-						if p := fwdParam(c.funcs[id.Name], i); p != "" {
-							if c.forwards(c.funcs[id.Name].Body, p, nil, depth+1) {
-								sent = true
-							} else {
-								ok = false
-							}
-							continue
-						}
-					}
-					no("the response %s is handed to %s", r, fwdRoot(v.Fun))
-				}
-			}
-		}
-		return true
-	})
-	if depth == 0 && ok && !sent {
-		no("the response %s is not marshalled with json.Marshal and sent with Message as it is", r)
-	}
-	return ok && sent
-}
-
-func fwdIsMarshal(call *ast.CallExpr) bool {
-	sel, ok := call.Fun.(*ast.SelectorExpr)
-	return ok && sel.Sel.Name == "Marshal" && fwdIsIdent(sel.X, "json")
-}
-
-// transitionHandlerTie returns (number of `R := x.Transition(..)` sites in package executor,
-// whether all of them forward R unchanged, why not).
-func transitionHandlerTie() (int, bool, []string) {
-	dir := repo + "/executor"
-	ents, err := os.ReadDir(dir)
-	if err != nil {
-		die("cannot read executor: %v", err)
-	}
-	fset := token.NewFileSet()
-	var files []*ast.File
-	c := &fwdCtx{funcs: map[string]*ast.FuncDecl{}}
-	for _, e := range ents {
-		n := e.Name()
-		if e.IsDir() || !strings.HasSuffix(n, ".go") || strings.HasSuffix(n, "_test.go") || strings.HasPrefix(n, "zz_verif") {
-			continue
-		}
-		f, err := parser.ParseFile(fset, filepath.Join(dir, n), nil, 0)
-		if err != nil {
-			die("cannot parse executor/%s: %v", n, err)
-		}
-		files = append(files, f)
-		for _, d := range f.Decls {
-			if fd, ok := d.(*ast.FuncDecl); ok && fd.Recv == nil && fd.Body != nil {
-				c.funcs[fd.Name.Name] = fd
-			}
-		}
-	}
-	sites, all := 0, true
-	for _, f := range files {
-		// enclosing function bodies, innermost last
-		var stack []ast.Node
-		ast.Inspect(f, func(n ast.Node) bool {
-			if n == nil {
-				stack = stack[:len(stack)-1]
-				return true
-			}
-			stack = append(stack, n)
-			as, ok := n.(*ast.AssignStmt)
-			if !ok || len(as.Rhs) != 1 || len(as.Lhs) != 1 {
-				return true
-			}
-			call, ok := as.Rhs[0].(*ast.CallExpr)
-			if !ok {
-				return true
-			}
-			sel, ok := call.Fun.(*ast.SelectorExpr)
-			if !ok || sel.Sel.Name != "Transition" {
-				return true
-			}
-			r, ok := as.Lhs[0].(*ast.Ident)
-			if !ok {
-				return true
-			}
-			var body ast.Node
-			for i := len(stack) - 1; i >= 0 && body == nil; i-- {
-				switch fn := stack[i].(type) {
-				case *ast.FuncLit:
-					body = fn.Body
-				case *ast.FuncDecl:
-					body = fn.Body
-				}
-			}
-			if body == nil {
-				return true
-			}
-			sites++
-			if !c.forwards(body, r.Name, as, 0) {
-				all = false
-			}
-			return true
-		})
-	}
-	return sites, all, c.why
 }
